@@ -74,6 +74,71 @@ def o_inverse(spec):
     return {"classes": cl, "nontrivial": len(spec["ops"]) >= 2}
 
 
+# ---------------------------------------------------------------- inverse of circuits that still carry free symbols
+
+
+@st.composite
+def inv_sym_cases(draw, tier):
+    names = [g for g in cgen.NAMES if cgen.TABLE[g][1] and g != "U3"] + ["CNOT", "H", "S"]
+    spec = draw(cgen.circuit_specs(max_n=3, max_ops=3, maxq=2, int_powers=(2,), names=names, custom=False, mods=("dag", "c")))
+    slots = [(i, j) for i, o in enumerate(spec["ops"]) if cgen.TABLE[o["g"]][1] for j in range(len(o["p"]))]
+    spec["symbolised"] = [list(x) for x in (draw(st.lists(st.sampled_from(slots), unique=True, max_size=3)) if slots else [])]
+    if draw(st.booleans()) or not spec["symbolised"]:
+        # a user-defined gate diag(1, z): its parameter is a complex number of modulus one, not an angle
+        n = cgen.circuit_width(spec)
+        g = {"g": "customsym", "t": "dz", "f": ["fz"], "p": [["sym", "z0"]], "mods": draw(st.sampled_from([[], [], [["dag"]], [["c", 1]] if n >= 2 else []]))}
+        perm = draw(st.permutations(list(range(n))))
+        g["q"] = list(perm[: cgen.gate_arity(g)])
+        spec["ops"].insert(draw(st.integers(0, len(spec["ops"]))), g)
+        spec["z0"] = draw(st.floats(0.1, 6.0, allow_nan=False))
+    return spec
+
+
+def o_inverse_symbolic(spec):
+    import cmath
+    import json as _json
+
+    import sympy
+
+    sym = _json.loads(_json.dumps(spec))
+    vals = {}
+    # positions refer to the operations before the optional dz gate was inserted: address them by identity
+    plain = [o for o in sym["ops"] if o["g"] != "customsym"]
+    for t, (i, j) in enumerate(spec["symbolised"]):
+        vals[sympy.Symbol("s%d" % t)] = sympy.Float(plain[i]["p"][j])
+        plain[i]["p"][j] = ["sym", "s%d" % t]
+    if "z0" in spec:
+        z = cmath.exp(1j * spec["z0"])
+        vals[sympy.Symbol("z0")] = sympy.Float(z.real) + sympy.Float(z.imag) * sympy.I
+    c = cgen.build_circuit(sym)
+    n = cgen.circuit_width(sym)
+    require(set(c.free_symbols) == set(vals), lambda: f"free symbols {c.free_symbols}, expected {sorted(map(str, vals))}")
+    inv = must(c.inverse, "inverse (free symbols)")
+    require(inv.n_qubits == n and len(inv.operations) == len(c.operations), "inverse differs in width or length")
+
+    def num(M):
+        return ref.npm(sympy.N(sympy.Matrix(M).xreplace(vals), 20))
+
+    U = num(must(c.to_unitary, "to_unitary (free symbols)"))
+    V = num(must(inv.to_unitary, "inverse.to_unitary (free symbols)"))
+    require(ref.close(V, U.conj().T, 1e-8), lambda: f"inverse of a circuit with free symbols, evaluated at {dict((str(k), complex(v)) for k, v in vals.items())}: not the conjugate transpose, max|d|={ref.maxdiff(V, U.conj().T):.3g}")
+    # operation by operation: inverse op k is the adjoint of original op (m-1-k) on the same qubits
+    m = len(c.operations)
+    for k, op in enumerate(inv.operations):
+        src = c.operations[m - 1 - k]
+        require(tuple(op.qubit_indices) == tuple(src.qubit_indices), lambda: f"inverse operation {k} acts on {op.qubit_indices}, original on {src.qubit_indices}")
+        A, B = num(op.gate.matrix), num(src.gate.matrix)
+        require(ref.close(A, B.conj().T, 1e-8), lambda: f"inverse operation {k} ({op.gate}) is not the adjoint of {src.gate} at these values, max|d|={ref.maxdiff(A, B.conj().T):.3g}")
+    S = num(must((c + inv).to_unitary, "to_unitary of circuit + inverse"))
+    require(ref.close(S, np.eye(2 ** n), 1e-8), lambda: f"circuit + inverse (free symbols) is not the identity at these values, max|d|={ref.maxdiff(S, np.eye(2 ** n)):.3g}")
+    cl = set()
+    if "z0" in spec:
+        cl.add("non_angle_parameter")
+    if spec["symbolised"]:
+        cl.add("symbolic_angle")
+    return {"classes": cl, "nontrivial": len(sym["ops"]) >= 2}
+
+
 @st.composite
 def ctl_cases(draw, tier):
     spec = draw(cgen.circuit_specs(max_n=3 if tier == "quick" else 4, max_ops=4 if tier == "quick" else 7, maxq=3))
@@ -207,7 +272,10 @@ SUBCHECKS = [
              rule="create_layer_of_gates / apply_gate_to_qubits: one gate per (distinct) qubit, row i on qubit i, prefix kept"),
     SubCheck("ancilla", o_ancilla, strategy=anc_cases, examples=(250, 1000), shards=(2, 6), fork_timeout=30,
              rule="add_ancilla_register: width + k, action = old (x) identity"),
+    SubCheck("inverse_symbolic", o_inverse_symbolic, strategy=inv_sym_cases, examples=(60, 300), shards=(4, 12), fork_timeout=60,
+             rule="circuits with free symbols (angles, and the parameter z of a user-defined gate diag(1, z) evaluated on the unit circle): inverse().to_unitary() is the conjugate transpose, operation by operation and as a whole, circuit + inverse == I"),
 ]
+SUBCHECKS[4].expected_classes = ["non_angle_parameter", "symbolic_angle"]
 SUBCHECKS[0].expected_classes = ["permuted", "non_adjacent", "wrapped", "custom", "idle", "exp_wrapper"]
 SUBCHECKS[1].expected_classes = ["inner_control_with_multiqubit_gate", "wrapped", "permuted"]
 SUBCHECKS[2].expected_classes = ["duplicate_qubits", "parametric", "fixed", "unsorted_collection"]
